@@ -216,11 +216,14 @@ func TestC06_DeterministicExecution(t *testing.T) {
 		failed, multi := 0, 0
 		for i := 0; i < n; i++ {
 			var txn *transaction.Transaction
-			switch rapid.IntRange(0, 3).Draw(t, "family") {
+			switch rapid.IntRange(0, 4).Draw(t, "family") {
 			case 0:
 				txn = e.Basic(t)
 			case 1:
 				txn = e.FailingCall(t)
+			case 2:
+				txn = e.FanOut(t)
+				multi++
 			default:
 				txn = e.Governance(t)
 				multi++
